@@ -3,6 +3,7 @@
 From Coq Require Import String.
 From Coq Require Import List ZArith NArith Arith Lia.
 From Coq Require Import Strings.Byte.
+From YVGen Require Import IterFns.
 From YV Require Import Utf8 IterModel IterSpec IterLang IterProofs IterLangProofs.
 Import ListNotations.
 
@@ -85,6 +86,38 @@ Theorem C18_for_leaves_no_state : forall k ofuel loc d e body m c m',
   exec (S k) ofuel loc d [SFor e body] m = (c, m') -> ok_ctl c -> length (stack m') = length (stack m).
 Proof. exact for_leaves_no_state. Qed.
 
+(* --- side conditions on the CURRENT core.yl (gen/IterFns.v, regenerated by translator/translate_c18.py):
+   every method of class Iter obtains the iterator of its receiver through iter() (it IS iter, calls self.iter(), or
+   loops `for v in self`) - never hands the bare receiver on; the mini-language covers exactly these methods;
+   MapIter.iter / FilterIter.iter return self --- *)
+Theorem C18_side_consumers_call_iter : consumers_call_iter iter_fns = true.
+Proof. vm_compute; reflexivity. Qed.
+Theorem C18_side_consumers_covered : consumers_covered iter_fns = true.
+Proof. vm_compute; reflexivity. Qed.
+Theorem C18_side_adapter_iter_is_self : adapter_iter_is_self mapiter_fns = true /\ adapter_iter_is_self filteriter_fns = true.
+Proof. split; vm_compute; reflexivity. Qed.
+
+(* --- user-defined iterables whose iter() does real work (rewinds a cursor, returns a separate cursor, a built-in
+   iterator of an inner vec, an adapter chain): what iter() returns hands out the whole denoted sequence, whatever
+   was traversed before; and iter() of that result is the identity --- *)
+Theorem C18_obj_iter_rep : forall st id,
+  (forall cards pos, nth_error (heap st) id = Some (ODeck cards pos) ->
+     Rep 1 (snd (obj_iter st id)) (fst (obj_iter st id)) (obj_elems KDeck cards 0)) /\
+  (forall items, nth_error (heap st) id = Some (OBag items) ->
+     Rep 1 (snd (obj_iter st id)) (fst (obj_iter st id)) (obj_elems KBag items 0)) /\
+  (forall vid, nth_error (heap st) id = Some (OVBag vid) ->
+     Rep 1 (snd (obj_iter st id)) (fst (obj_iter st id)) (obj_elems KVBag (get_vec st vid) 0)) /\
+  (forall vid k, nth_error (heap st) id = Some (OChained vid k) ->
+     exists F, Rep F (snd (obj_iter st id)) (fst (obj_iter st id)) (obj_elems KChained (get_vec st vid) k)).
+Proof. exact obj_iter_rep. Qed.
+Theorem C18_obj_iter_idem : forall st id, obj_iter (snd (obj_iter st id)) (fst (obj_iter st id)) = obj_iter st id.
+Proof. exact obj_iter_idem. Qed.
+
+Print Assumptions C18_side_consumers_call_iter.
+Print Assumptions C18_side_consumers_covered.
+Print Assumptions C18_side_adapter_iter_is_self.
+Print Assumptions C18_obj_iter_rep.
+Print Assumptions C18_obj_iter_idem.
 Print Assumptions C18_sentinel_uniform.
 Print Assumptions C18_next_enumerates.
 Print Assumptions C18_fresh_iter_rep.
